@@ -41,14 +41,13 @@ CHECKS = {
         text='Partial. Cache transparency, structurally: everything reachable from the cached pawn term reads the position through '
              'pawn-only accessors and no evaluator member, lookup and store use the unchanged pawn key, hit and miss return the same '
              'quantity; for both HashMap instantiations a cleared or never-written slot cannot satisfy the hit test (clear covers all '
-             'slots with a value the marker test rejects, insert stores the epoch which starts >= 1 and only grows); scratch members '
-             'are assigned for both colours before any read in the same score() call and statistics members never feed results. '
+             'slots with a value the marker test rejects, insert stores the epoch which starts >= 1 and only grows). '
              'Boundedness: interval evaluation (additive loop rule, legal-material atoms) puts all 17 endgame evaluators, either sign, '
              'and the general evaluation strictly inside (-win_in(MAX_DEPTH), win_in(MAX_DEPTH)) and away from VALUE_NONE. '
              'Collisions of the 64-bit pawn key are probabilistic and not decided. (R6) walking one evaluation in execution order, every member slot of the scorer (attack maps, pin sets, weight, per colour and kind) is first set by an unconditional plain assignment and is not written after it was read.',
         design_ref='DESIGN.md §3 C14',
         note=TB + 'A-MAT: at most 10 pieces of a kind and 8 pawns per colour; pawn key purity is C04; epoch wrap-around after 2^32 not considered.',
-        technique='static: effect/reachability rule on accessors, guard-atom reasoning on the cache protocol, interval abstract interpretation, write-before-read dominance'),
+        technique='static: effect/reachability rule on accessors, guard-atom reasoning on the cache protocol, interval abstract interpretation, execution-order event walk over member slots (write-before-read, no write after read)'),
     'C13': dict(
         category='proof',
         text='Relational type system for the colour swap (rules/mirror.py): the WHITE and BLACK instantiations (or strongSide = c / !c) '
